@@ -102,7 +102,10 @@ def make_copyright_line(
         )
 
     for pattern in _COPYRIGHT_PATTERNS:
-        match = pattern.search(statement)
+        # Only a statement that begins with a copyright tag is a complete
+        # notice. A holder that merely contains the word (e.g. 'The Copyright
+        # Holders') still needs its prefix and year.
+        match = pattern.match(statement)
         if match is not None:
             return statement
     if year is not None:
